@@ -53,6 +53,7 @@ type cfgSpec struct {
 	Strategy   string   `json:"strategy"`
 	ErrsReader bool     `json:"errs_reader"`
 	IdGen      bool     `json:"idgen"`
+	WsIds      bool     `json:"wsids"`
 	NoBind     bool     `json:"nobind"` // do not bind the queues up front (clients use Bind ops)
 	Consumers  int      `json:"consumers,omitempty"` // >1: that many workers consume one shared distributed adapter
 	Preload    []preSpec `json:"preload,omitempty"`  // entries already held by adapter 0 when the worker is bound
@@ -146,7 +147,16 @@ type episode struct {
 	peak    atomic.Int64
 }
 
-func jobID(key int) string { return fmt.Sprintf("id-%d", key) }
+// wsIDs: the episode's submissions choose IDs with leading and trailing white space (cfg.wsids): an ID is an opaque string and must
+// reach the worker function, the results and the adapter entries unchanged (one episode at a time per process)
+var wsIDs bool
+
+func jobID(key int) string {
+	if wsIDs {
+		return fmt.Sprintf(" id-%d\t", key)
+	}
+	return fmt.Sprintf("id-%d", key)
+}
 
 func (ep *episode) outcome(key int) string {
 	if o, ok := ep.prog.Outcome[fmt.Sprint(key)]; ok {
@@ -1051,6 +1061,7 @@ func runEpisode(prog *progSpec) (res epResult) {
 	gated := prog.Sched.Kind != "free" && prog.Sched.Kind != "race"
 	g := newGate(gated)
 	g.coarse = prog.Sched.Coarse
+	wsIDs = prog.Cfg.WsIds
 	if onDemand[prog.Sched.Label] {
 		g.demand = prog.Sched.Label
 	}
